@@ -17,6 +17,8 @@ import (
 type expected struct {
 	c      chan *Conn
 	cancel context.CancelFunc
+	// done is closed when the Expect call has stopped waiting.
+	done <-chan struct{}
 }
 
 // Listener is an implementation of net.Listener that is used to accept
@@ -27,17 +29,25 @@ type Listener struct {
 	c        chan *Conn
 	expected map[string]expected
 	eLock    sync.Mutex
+
+	// done is closed by Close; c is never closed so that a handler that is
+	// handing over a stream cannot send on a closed channel.
+	done      chan struct{}
+	closeOnce sync.Once
 }
+
+var errListenerClosed = errors.New("ibb: accept on closed listener")
 
 // Accept waits for the next incoming IBB stream and returns the connection.
 // If the listener is closed by either end pending Accept calls unblock and
 // return an error.
 func (l *Listener) Accept() (net.Conn, error) {
-	conn, ok := <-l.c
-	if !ok {
-		return nil, errors.New("ibb: accept on closed listener")
+	select {
+	case conn := <-l.c:
+		return conn, nil
+	case <-l.done:
+		return nil, errListenerClosed
 	}
-	return conn, nil
 }
 
 // Expect is like Accept except that it accepts a specific session that has been
@@ -59,16 +69,31 @@ func (l *Listener) Expect(ctx context.Context, from jid.JID, sid string) (net.Co
 	e.c = make(chan *Conn)
 	ctx, cancel := context.WithCancel(ctx)
 	e.cancel = cancel
+	e.done = ctx.Done()
 	l.expected[key] = e
 	l.eLock.Unlock()
 
+	// forget removes the entry again unless a later Expect or an incoming
+	// stream has already replaced or taken it: a stream for this key must not
+	// be kept waiting for a call that has returned.
+	forget := func() {
+		l.eLock.Lock()
+		if cur, ok := l.expected[key]; ok && cur.c == e.c {
+			delete(l.expected, key)
+		}
+		l.eLock.Unlock()
+		cancel()
+	}
+
 	select {
 	case <-ctx.Done():
+		forget()
 		return nil, ctx.Err()
-	case conn, ok := <-e.c:
-		if !ok {
-			return nil, errors.New("ibb: accept on closed listener")
-		}
+	case <-l.done:
+		forget()
+		return nil, errListenerClosed
+	case conn := <-e.c:
+		cancel()
 		return conn, nil
 	}
 }
@@ -79,8 +104,11 @@ func (l *Listener) Expect(ctx context.Context, from jid.JID, sid string) (net.Co
 func (l *Listener) Close() error {
 	l.h.lM.Lock()
 	defer l.h.lM.Unlock()
-	delete(l.h.l, l.s.LocalAddr().String())
-	close(l.c)
+	addr := l.s.LocalAddr().String()
+	if l.h.l[addr] == l {
+		delete(l.h.l, addr)
+	}
+	l.closeOnce.Do(func() { close(l.done) })
 	return nil
 }
 
